@@ -671,7 +671,7 @@ impl Sim {
                 self.adopt_copy(a, b, "C10", "clone_from")?;
                 self.probes.hit("clone_from");
             }
-            Op::RoundTrip { src, dst, enc } => {
+            Op::RoundTrip { src, dst, enc, in_place } => {
                 let (a, b) = (self.s(*src), self.s(*dst));
                 if self.slots[a].tainted {
                     return Ok(());
@@ -684,22 +684,56 @@ impl Sim {
                     Err(c) => return Err(unexpected(c, "World::serialize", "C06")),
                 };
                 self.probes.add("stream_units", stream.len() as u64);
-                let new = match sut(|| medium::deserialize(&stream)) {
-                    Ok(Ok(n)) => n,
-                    Ok(Err(e)) => {
-                        return Err(viol(
-                            "C06",
-                            "roundtrip-deserialize-failed",
-                            format!("deserializing the library's own output (encoding {enc}) failed: {e}"),
-                        ))
+                let new = if *in_place && a != b && !self.slots[b].tainted {
+                    // Over the world that is in the destination slot.
+                    let mut place = self.slots[b].world.take().unwrap();
+                    let r = sut(|| medium::deserialize_in_place(&stream, &mut place));
+                    match r {
+                        Ok(Ok(())) => {
+                            self.probes.hit("deserialize_in_place");
+                            // The replica is where it belongs already.
+                            self.slots[b].world = Some(place);
+                            self.slots[b].tainted = false;
+                            self.slots[b].snapshot = None;
+                            None
+                        }
+                        Ok(Err(e)) => {
+                            // The place may have been modified; it has to be a usable world of unknown content.
+                            self.slots[b].world = Some(place);
+                            self.slots[b].tainted = true;
+                            self.balance_off = true;
+                            self.lockstep = None;
+                            return Err(viol("C06", "roundtrip-deserialize-failed", format!("deserializing the library's own output in place (encoding {enc}) failed: {e}")));
+                        }
+                        Err(c) => {
+                            self.slots[b].world = Some(place);
+                            return Err(unexpected(c, "World::deserialize_in_place", "C06"));
+                        }
                     }
-                    Err(c) => return Err(unexpected(c, "World::deserialize", "C06")),
+                } else {
+                    match sut(|| medium::deserialize(&stream)) {
+                        Ok(Ok(n)) => Some(n),
+                        Ok(Err(e)) => {
+                            return Err(viol(
+                                "C06",
+                                "roundtrip-deserialize-failed",
+                                format!("deserializing the library's own output (encoding {enc}) failed: {e}"),
+                            ))
+                        }
+                        Err(c) => return Err(unexpected(c, "World::deserialize", "C06")),
+                    }
                 };
-                let eq = sut(|| (new == *self.slots[a].world.as_ref().unwrap(), *self.slots[a].world.as_ref().unwrap() == new));
+                let eq = sut(|| {
+                    let n = new.as_ref().unwrap_or_else(|| self.slots[b].world.as_ref().unwrap());
+                    let o = self.slots[a].world.as_ref().unwrap();
+                    (n == o, o == n)
+                });
                 match eq {
                     Ok((true, true)) => {}
                     Ok((x, y)) => {
-                        let _ = self.replace_world(b, new);
+                        if let Some(new) = new {
+                            let _ = self.replace_world(b, new);
+                        }
                         return Err(viol(
                             "C06",
                             "roundtrip-not-equal",
@@ -711,11 +745,13 @@ impl Sim {
                 if a == b {
                     // Replace the original by its replica (crash + restore in one step).
                     let old_model = self.slots[a].model.clone();
-                    self.replace_world(a, new)?;
+                    self.replace_world(a, new.unwrap())?;
                     self.slots[a].model = old_model;
                     self.relearn_after_copy(a, "C06", "round trip")?;
                 } else {
-                    self.replace_world(b, new)?;
+                    if let Some(new) = new {
+                        self.replace_world(b, new)?;
+                    }
                     self.adopt_copy(a, b, "C06", "round trip")?;
                 }
                 if self.slots[a].model.ents.is_empty() {
@@ -805,6 +841,10 @@ impl Sim {
                 if rec.items.len() != views.len() {
                     return Err(viol("C15", "resource-view-count", format!("{} views requested, {} observed", views.len(), rec.items.len())));
                 }
+                if self.slots[si].tainted {
+                    // Content unknown after an interrupted operation: integrity (checked above) only.
+                    return Ok(());
+                }
                 for (it, (k, r)) in rec.items.iter().zip(views.iter()) {
                     let want = self.slots[si].model.res[*r as usize];
                     if it.comp != zoo::RES_IX_BASE + *r || (it.serial, it.val) != want {
@@ -840,6 +880,9 @@ impl Sim {
                     Ok(Err(e)) => return Err(viol("C15", "resource-integrity", e)),
                     Err(c) => return Err(unexpected(c, "World::get_mut", "C15")),
                 };
+                if self.slots[si].tainted {
+                    return Ok(());
+                }
                 let want = self.slots[si].model.res[which];
                 if (r.0, r.1) != want {
                     return Err(viol(
@@ -918,8 +961,8 @@ impl Sim {
                     self.lockstep = None;
                 }
             }
-            Op::Corrupt { src, dst, enc, faults } => {
-                return self.corrupt(self.s(*src), self.s(*dst), *enc % medium::NENC, faults);
+            Op::Corrupt { src, dst, enc, faults, in_place } => {
+                return self.corrupt(self.s(*src), self.s(*dst), *enc % medium::NENC, faults, *in_place);
             }
             Op::FaultAt { kind, k, as_error, inner } => {
                 return self.fault_at(kind, *k, *as_error, inner);
@@ -1551,7 +1594,7 @@ impl Sim {
     // Faulted operations.
     // ---------------------------------------------------------------------------------------
 
-    fn corrupt(&mut self, a: usize, b: usize, enc: u8, faults: &[StreamFault]) -> Result<(), Violation> {
+    fn corrupt(&mut self, a: usize, b: usize, enc: u8, faults: &[StreamFault], in_place: bool) -> Result<(), Violation> {
         if self.slots[a].tainted {
             return Ok(());
         }
@@ -1579,7 +1622,30 @@ impl Sim {
         let live0 = ledger::live_count();
         let sut_blocks0 = arena::stats().live_sut;
         let anon0: Vec<i64> = (0..ledger::NTYPES as u8).map(ledger::anon_live).collect();
-        let r = sut(|| medium::deserialize(&stream));
+        // In place: over the world that is in the destination slot. Whatever the outcome, that world
+        // has to stay usable; after an error its content is unspecified.
+        let in_place = in_place && a != b && !self.slots[b].tainted;
+        let r = if in_place {
+            let mut place = self.slots[b].world.take().unwrap();
+            let r = sut(|| medium::deserialize_in_place(&stream, &mut place));
+            match r {
+                Ok(Ok(())) => Ok(Ok(place)),
+                other => {
+                    self.slots[b].world = Some(place);
+                    self.slots[b].tainted = true;
+                    self.balance_off = true;
+                    self.lockstep = None;
+                    self.probes.hit("deserialize_in_place_rejected");
+                    match other {
+                        Ok(Err(e)) => Ok(Err(e)),
+                        Err(c) => Err(c),
+                        Ok(Ok(())) => unreachable!(),
+                    }
+                }
+            }
+        } else {
+            sut(|| medium::deserialize(&stream))
+        };
         match r {
             Err(Caught::Other(msg)) if medium::is_medium_panic(&msg) => {
                 // The token medium itself rejected the stream by panicking: not the library's doing.
@@ -1603,6 +1669,10 @@ impl Sim {
                 }
                 if let Some(e) = arena::error() {
                     return Err(viol("C11", "corrupt-arena-audit", format!("while rejecting a corrupted stream: {e}")));
+                }
+                if in_place {
+                    // What the place holds now is unspecified; only exactly-once and memory safety apply.
+                    return Ok(());
                 }
                 if ledger::live_count() != live0 {
                     let held = self.all_serials_except(usize::MAX);
@@ -1638,6 +1708,9 @@ impl Sim {
             }
             Ok(Ok(new)) => {
                 self.probes.hit("corrupt_accepted");
+                if in_place {
+                    self.probes.hit("deserialize_in_place");
+                }
                 // The accepted world must be fully valid: audit, then adopt it with a model built
                 // from its own extraction and continue the history on it.
                 self.replace_world(b, new)?;
